@@ -14,6 +14,7 @@ import sys
 
 HERE = os.path.dirname(os.path.abspath(__file__))
 sys.path.insert(0, os.path.dirname(HERE))
+import vmon  # noqa: E402,F401  (switches the reach recorder on before the library is imported, when asked for)
 
 
 def main():
@@ -410,7 +411,7 @@ def run(spec, out):
                                "alias-dupname", "alias-dupsym", "alias-space", "scale-dupname", "scale-space", "scale-badzero", "dimderive-dupname",
                                "prefix-dupname", "prefix-dupsym", "equals-self", "equals-zero", "define-badsymboltype", "dimdefine-dupname",
                                "prefix-dupname-identity", "ownname-derive-dupsym", "ownname-derive-space", "ownname-alias-dupsym", "ownname-alias-space",
-                               "symbolonly-alias-dupsym", "symbolonly-alias-space", "dimctor-dupname"])
+                               "symbolonly-alias-dupsym", "symbolonly-alias-space", "dimctor-dupname", "prefix-rename", "prefix-resymbol"])
             dup_n, dup_s = rng.choice(unit_names), rng.choice(unit_symbols)
             target = rng.choice(my_units) if my_units else None
             anon = None
@@ -483,6 +484,15 @@ def run(spec, out):
                     if anon_first:
                         Prefix(13, e)
                     expect_fail("Prefix(name=...)", "duplicate symbol", "anonymous-first" if anon_first else "fresh", lambda: Prefix(13, e, name=fresh("zqp"), symbol=taken))
+            elif kind in ("prefix-rename", "prefix-resymbol"):
+                # a prefix has one name and one symbol: declaring an already named prefix under another one is refused
+                named = sorted((p for p in Prefix._known.values() if getattr(p, "name", None) and getattr(p, "symbol", None) and p.base), key=lambda p: p.name)
+                if named:
+                    p0 = rng.choice(named)
+                    if kind == "prefix-rename":
+                        expect_fail("Prefix(name=...)", "second name for a named prefix", "already-named", lambda: Prefix(p0.base, p0.exponent, name=fresh("zqp"), symbol=p0.symbol))
+                    else:
+                        expect_fail("Prefix(name=...)", "second symbol for a named prefix", "already-named", lambda: Prefix(p0.base, p0.exponent, name=p0.name, symbol=fresh("zqP")))
             elif kind == "prefix-dupname-identity":
                 # exponent 0 denotes the identity prefix for every base: a taken name / symbol must still be refused
                 taken_n = rng.choice(sorted(Prefix._by_name)) if Prefix._by_name else None
